@@ -117,6 +117,15 @@ CHECKS = {
             'scalars (both byte orders), nonces, master secret, key block and slices, TLS 1.3 traffic keys recovered by '
             'inverting the SM4 key schedule of the connection object, IVs, passwords, plaintexts.',
             '4/C19', TRUSTED),
+    'C20': ('exploration',
+            'ThreadSanitizer (gcc, static build of the working tree) on a C stress harness with seeded per-thread scripts '
+            'and shim-injected yields; monitor: per-thread result digest equals the digest of the same script run alone; '
+            'the same harness under AddressSanitizer',
+            '2..16 threads run hashing, SM4 modes, SM2 keygen/sign/verify/encrypt/decrypt and contexts, SM9, key DER round '
+            'trips, X.509 chain verification incl. failing paths, TLS record protection, and pairwise complete handshakes '
+            '(3 protocols, server-auth and mutual) with application data on their own socketpairs; any TSan report with a '
+            'library frame, any digest mismatch against the sequential replay, or any ASan/UBSan report is a violation.',
+            '4/C20', TRUSTED),
 }
 
 NOT_YET = {}
